@@ -168,18 +168,29 @@ def sc_selector(pkg, cls):
             else:
                 ctor.update(k=2, recompute_every=2)
             ctor["score_threshold"] = 1e-12
+        elif variant == 4:
+            # a relative score threshold that IS reached before n_to_select (early-stop path of fit)
+            ctor.update(n_to_select=4, score_threshold=0.9, score_threshold_type="relative")
+        elif variant == 3:
+            # random choices under the DEFAULT random_state (0, falsy) and under an explicit 0
+            if fps:
+                ctor.update(initialize="random")
+            else:
+                # k=2 with two selections only: after more orthogonalisations the top-2 eigenspace of the 4-feature
+                # data set degenerates and pi_ is not a function of the inputs any more (ARPACK start vector)
+                ctor.update(k=2, random_state=0, n_to_select=2)
         else:
             if fps and not pcov:
                 ctor["initialize"] = Arr(np.array([1, 3]))
             if pcov:
                 ctor["mixing"] = 0.25
             ctor["n_to_select"] = 0.5
-        y = Arr(Y) if pcov or variant != 1 else None
+        y = Arr(Y) if pcov or variant not in (1, 3) else None
         fit = dict(X=Arr(X), y=y)
         steps = [("fit", fit), ("score", dict(X=Arr(X), y=y)), ("get_support", dict(indices=True, ordered=True))]
         if feature:
             steps.append(("transform", dict(X=Arr(X))))
-            steps.append(("inverse_transform", dict(X=Arr(X[:, :3 if variant < 2 else 2]))))
+            steps.append(("inverse_transform", dict(X=Arr(X[:, :3 if variant != 2 and (fps or variant != 3) else 2]))))
         else:       # documented as unsupported for sample selection (ValueError); exercised all the same
             steps += [("transform", dict(X=Arr(X))), ("inverse_transform", dict(X=Arr(X[:3])))]
         if fps:
@@ -195,7 +206,7 @@ def sc_selector(pkg, cls):
         out["param_histories"] = {"n_to_select": (dict(n_to_select=2), None),
                                   "threshold": (dict(score_threshold=1e-3, score_threshold_type="relative"), None)}
         return out
-    return dict(unit="%s.%s" % (pkg, cls), cls="%s.%s" % (pkg, cls), variants=3, make=make)
+    return dict(unit="%s.%s" % (pkg, cls), cls="%s.%s" % (pkg, cls), variants=5, make=make)
 
 
 def sc_voronoi():
@@ -208,6 +219,8 @@ def sc_voronoi():
             ctor.update(full_fraction=0.6, initialize="random", random_state=1)
         if variant == 2:
             ctor.update(full_fraction=0.3, n_to_select=5)
+        if variant == 3:
+            ctor.update(full_fraction=0.5, initialize="random", random_state=0)
         y = Arr(Y) if variant == 2 else None
         fit = dict(X=Arr(X), y=y)
         steps = [("fit", fit), ("score", dict(X=Arr(X), y=y)), ("get_distance", {}), ("get_select_distance", {}),
@@ -219,7 +232,7 @@ def sc_voronoi():
         # with full_fraction=None the calibrated value depends on wall-clock timings
         return dict(ctor=ctor, steps=steps, fit=fit, fresh_steps=[("fit_transform", {})], alt_fits=alt if variant else {}, ignore={"full_fraction"} if variant == 0 else set(),
                     nondeterministic=variant == 0)
-    return dict(unit="sample_selection.VoronoiFPS", cls="sample_selection.VoronoiFPS", variants=3, make=make)
+    return dict(unit="sample_selection.VoronoiFPS", cls="sample_selection.VoronoiFPS", variants=4, make=make)
 
 
 def sc_dch():
@@ -369,13 +382,15 @@ def sc_ridge():
         if variant == 1:
             ctor = dict(alphas=Arr(np.array([0.01, 0.1, 0.5])), alpha_type="relative", regularization_method="cutoff",
                         random_state=1, shuffle=True)
+        if variant == 2:
+            ctor = dict(alphas=Arr(np.array([1e-3, 1e-1, 1.0])), random_state=0, shuffle=True)
         fit = dict(X=Arr(X), y=Arr(Y))
         steps = [("fit", fit), ("predict", dict(X=Arr(X))), ("score", dict(X=Arr(X), y=Arr(Y)))]
         return dict(ctor=ctor, steps=steps, fit=fit,
                     alt_fits={"A_then_B": dict(X=Arr(XB), y=Arr(YB)), "larger_then_smaller": dict(X=Arr(XS), y=Arr(YS))},
                     param_histories={"method": (dict(regularization_method="cutoff" if variant == 0 else "tikhonov"), None),
                                      "alpha_type": (dict(alpha_type="relative" if variant == 0 else "absolute"), None)})
-    return dict(unit="linear_model.Ridge2FoldCV", cls="linear_model.Ridge2FoldCV", variants=2, make=make)
+    return dict(unit="linear_model.Ridge2FoldCV", cls="linear_model.Ridge2FoldCV", variants=3, make=make)
 
 
 def sc_orth():
@@ -478,13 +493,18 @@ def fn_scenarios():
             rs = np.random.RandomState(dseed)
             tr = [Arr(rs.normal(size=(rs.randint(2, 5), 5))) for _ in range(5)]
             te = [Arr(rs.normal(size=(rs.randint(2, 4), 5))) for _ in range(2)]
+            if variant:
+                # the same pool of environments, grouped differently into structures (variant 1), other alpha (variant 2)
+                pool = np.vstack([t.a for t in tr])
+                cuts = [0, 1, 3, len(pool) - 2, len(pool)] if variant == 1 else [0, 2, len(pool)]
+                tr = [Arr(pool[a:b]) for a, b in zip(cuts[:-1], cuts[1:])]
             kw = dict(X_train=tr, X_test=te, alpha=1e-3)
             if comp:
                 kw["comp_dims"] = Arr(np.array([2, 3]))
             return kw
         return make
-    add("metrics.local_prediction_rigidity", "metrics.local_prediction_rigidity", 1, pr(False))
-    add("metrics.componentwise_prediction_rigidity", "metrics.componentwise_prediction_rigidity", 1, pr(True))
+    add("metrics.local_prediction_rigidity", "metrics.local_prediction_rigidity", 3, pr(False))
+    add("metrics.componentwise_prediction_rigidity", "metrics.componentwise_prediction_rigidity", 3, pr(True))
 
     def ppd(variant, dseed):
         rs, X, Y = base_data(dseed, n=7, d=3)
@@ -711,6 +731,205 @@ def run_class_case(rec, sc, variant, dseed, layout, checks=True):
                               key="%s.fit_transform:equals fit.transform" % unit)
 
 
+# ------------------------------------------------------------------ fit_transform == fit().transform(), every route
+def _ft_combos(Cls, spec, dseed):
+    """keyword combinations the signature of fit allows: targets given / not given / given although ignored,
+    sample_weight given / not given -> [(label, fit kwargs)] (the data argument first)"""
+    import inspect
+    base = realise(spec["fit"], "C")
+    try:
+        params = inspect.signature(Cls.fit).parameters
+    except (TypeError, ValueError):
+        return []
+    first = next(iter(base))
+    n = len(np.asarray(base[first]))
+    rs = np.random.RandomState(dseed + 7)
+    ykey = "y" if "y" in params else "Y" if "Y" in params else None
+    core = {k: v for k, v in base.items() if k not in (ykey, "sample_weight")}
+    yopts = [("", {})]
+    if ykey:
+        optional = params[ykey].default is not inspect.Parameter.empty
+        yopts = [("no y", {})] if optional else []
+        if base.get(ykey) is not None:
+            yopts.append(("y", {ykey: base[ykey]}))
+        yopts.append(("y1d", {ykey: rs.normal(size=n)}))
+        yopts.append(("y2d", {ykey: rs.normal(size=(n, 2))}))
+    wopts = [("", {})]
+    if "sample_weight" in params:
+        wopts = [("no weights", {}), ("weights", {"sample_weight": rs.uniform(0.2, 3.0, size=n)}),
+                 ("integer weights", {"sample_weight": rs.randint(0, 4, size=n).astype(float) + (np.arange(n) == 0)})]
+    out = []
+    for yl, yk in yopts:
+        for wl, wk in wopts:
+            kw = dict(core)
+            kw.update(yk)
+            kw.update(wk)
+            out.append(((yl + " " + wl).strip() or "plain", first, ykey, kw, [p for p in params if p != "self"]))
+    return out
+
+
+def run_fit_transform_combos(rec, sc, variant, dseed, only=None):
+    Cls = imp(sc["cls"])
+    unit = sc["unit"]
+    if not hasattr(Cls, "fit_transform") or not hasattr(Cls, "transform"):
+        return
+    spec = sc["make"](variant, dseed)
+    if spec.get("nondeterministic"):
+        return
+
+    def fresh():
+        return Cls(**realise(sc["make"](variant, dseed)["ctor"], "C"))
+
+    def cp(kw):
+        return {k: (np.array(v) if isinstance(v, np.ndarray) else v) for k, v in kw.items()}
+    for label, first, ykey, kw, params_order in _ft_combos(Cls, spec, dseed):
+        if only is not None and label != only:
+            continue
+        case = dict(kind="fit_transform", scenario=unit, variant=variant, dseed=dseed, layout="C", n_extra=N_EXTRA, combo=label)
+        with warnings.catch_warnings():
+            warnings.simplefilter("ignore")
+            try:                                  # reference: fit(...) then transform(data)
+                e2 = fresh()
+                perturb_global_rng()
+                invoke(e2, "fit", cp(kw))
+                ref = np.asarray(e2.transform(np.array(kw[first])))
+            except Exception:     # noqa  (combination not applicable / transform unsupported)
+                rec.stats["fit_transform_not_applicable"] = rec.stats.get("fit_transform_not_applicable", 0) + 1
+                continue
+            routes = []
+            ftkw = cp(kw)
+            data = ftkw.pop(first)
+            if ykey == "Y" and "Y" in ftkw:
+                ftkw["y"] = ftkw.pop("Y")
+            routes.append(("fit_transform(%s)" % label, lambda: fresh().fit_transform(data, **ftkw)))
+            if "y" in ftkw and list(params_order)[1:2] == [ykey]:
+                yv = ftkw["y"]
+                rest = {k: v for k, v in ftkw.items() if k != "y"}
+                routes.append(("fit_transform(X, y, ...) positional [%s]" % label, lambda: fresh().fit_transform(data, yv, **rest)))
+            if first == "X" and ftkw.get("y") is not None and set(ftkw) <= {"y", "sample_weight"}:
+                def through_pipeline():
+                    from sklearn.linear_model import Ridge
+                    from sklearn.pipeline import Pipeline
+                    pipe = Pipeline([("t", fresh()), ("r", Ridge())])
+                    fp = {"t__sample_weight": ftkw["sample_weight"]} if "sample_weight" in ftkw else {}
+                    pipe.fit(data, ftkw["y"], **fp)
+                    return pipe.named_steps["t"].transform(np.array(kw[first]))
+                routes.append(("Pipeline.fit [%s]" % label, through_pipeline))
+            for rname, call in routes:
+                try:
+                    perturb_global_rng()
+                    got = np.asarray(call())
+                except Exception as e:     # noqa
+                    if rname.startswith("Pipeline"):
+                        rec.stats["fit_transform_pipeline_skipped"] = rec.stats.get("fit_transform_pipeline_skipped", 0) + 1
+                        continue
+                    rec.violation("C09 fails: %s.%s raises %s: %s although fit followed by transform works" % (
+                        unit, rname, type(e).__name__, str(e)[:80]), case, key="%s.fit_transform:equals fit.transform" % unit)
+                    continue
+                rec.stats["fit_transform_pairs"] += 1
+                if not close(snap(got), snap(ref)):
+                    rec.violation("C09 fails: %s %s differs from fit followed by transform with the same arguments" % (unit, rname),
+                                  case, key="%s.fit_transform:equals fit.transform" % unit)
+                    break
+
+
+# ------------------------------------------------------------------ fitted state must not alias the caller's fit arguments
+# aliasing present on the unchanged tree and accepted, with the reason (unit, attribute regex)
+ALIAS_ACCEPTED = [
+    ("feature_selection.PCovCUR", "X_ref_|y_ref_", "reference copies kept for the warm start only (documented: 'assumes the same X and y'); no method reads them after fit"),
+    ("sample_selection.PCovCUR", "X_ref_|y_ref_", "as above"),
+]
+
+
+def _arrays(v, pre=""):
+    if isinstance(v, np.ndarray):
+        yield pre, v
+    elif isinstance(v, (list, tuple)):
+        for i, x in enumerate(v):
+            yield from _arrays(x, "%s[%d]" % (pre, i))
+    elif isinstance(v, dict):
+        for k, x in v.items():
+            yield from _arrays(x, "%s.%s" % (pre, k) if pre else str(k))
+
+
+def run_alias_case(rec, sc, variant, dseed):
+    """fit, then the caller overwrites every array he passed to fit; the fitted object must not notice"""
+    import re
+    Cls = imp(sc["cls"])
+    unit = sc["unit"]
+    spec = sc["make"](variant, dseed)
+    if spec.get("nondeterministic"):
+        return
+    case = dict(kind="alias", scenario=unit, variant=variant, dseed=dseed, layout="C", n_extra=N_EXTRA)
+    try:
+        perturb_global_rng(reset=True)
+        ref = fit_fresh(Cls, sc, variant, dseed, "C", spec["fit"])
+        est = Cls(**realise(sc["make"](variant, dseed)["ctor"], "C"))
+        kw = realise(spec["fit"], "C")
+        with warnings.catch_warnings():
+            warnings.simplefilter("ignore")
+            perturb_global_rng()
+            invoke(est, "fit", kw)
+    except Exception:     # noqa
+        return
+    if state_diff(state(est), state(ref), set(spec.get("ignore", ()))):
+        return               # not reproducible in the first place: reported by the determinism family
+    names = []
+    for name, a in _arrays(kw):
+        if a.flags.writeable and a.size:
+            if a.dtype.kind == "f":
+                a *= -0.37
+                a += 2.5
+            elif a.dtype.kind in "iu":
+                a[...] = a[::-1].copy() if a.ndim == 1 else a
+            names.append(name)
+    rec.stats["alias_cases"] = rec.stats.get("alias_cases", 0) + 1
+    accepted = [rx for u, rx, _ in ALIAS_ACCEPTED if u == unit]
+    d = [x for x in state_diff(state(est), state(ref), set(spec.get("ignore", ())))
+         if not any(re.fullmatch(rx, x.split(" ")[0]) for rx in accepted)]
+    skipped = [x for x in state_diff(state(est), state(ref), set(spec.get("ignore", ()))) if x not in d]
+    if skipped:
+        rec.stats["alias_accepted"] = rec.stats.get("alias_accepted", 0) + 1
+    if d:
+        rec.violation("C09 fails: the fitted state of %s aliases the caller's fit arguments: after the caller overwrote %s in place, %s" % (
+            unit, ", ".join(names), "; ".join(d[:4])), case, key="%s.fit:state aliases caller arrays" % unit, detail=d)
+        return
+    if skipped:
+        return           # the methods below read the accepted aliases
+    for m, k in spec.get("steps", []):
+        if m in ("fit", "fit_transform", "sample") or m.startswith("set_"):
+            continue
+        with warnings.catch_warnings():
+            warnings.simplefilter("ignore")
+            try:
+                want = invoke(ref, m, realise(k, "C"))
+            except Exception:     # noqa
+                continue
+            try:
+                got = invoke(est, m, realise(k, "C"))
+            except Exception as e:     # noqa
+                got = e
+        rec.stats["alias_method_comparisons"] = rec.stats.get("alias_method_comparisons", 0) + 1
+        if isinstance(got, Exception) or not close(snap(got), snap(want)):
+            rec.violation("C09 fails: %s.%s changes after the caller overwrote the arrays passed to fit (%s) in place: the fitted "
+                          "state aliases caller data" % (unit, m, ", ".join(names)), case, key="%s.fit:state aliases caller arrays" % unit)
+            return
+
+
+# ------------------------------------------------------------------ functions: no memory of earlier calls
+def fresh_function(fn):
+    """the same function from a private re-execution of its defining module (fresh module globals)"""
+    import importlib.util
+    import sys
+    mod = sys.modules[fn.__module__]
+    spec = importlib.util.spec_from_file_location(mod.__name__.rsplit(".", 1)[0] + "._c09_fresh_" + mod.__name__.rsplit(".", 1)[-1],
+                                                  mod.__file__)
+    new = importlib.util.module_from_spec(spec)
+    new.__package__ = mod.__package__
+    spec.loader.exec_module(new)
+    return getattr(new, fn.__name__)
+
+
 def run_function_case(rec, sc, variant, dseed, layout, checks=True):
     fn = imp(sc["fn"])
     unit = sc["unit"]
@@ -729,6 +948,7 @@ def run_function_case(rec, sc, variant, dseed, layout, checks=True):
         try:
             with warnings.catch_warnings():
                 warnings.simplefilter("ignore")
+                perturb_global_rng()
                 res2 = fn(*args, **kw)
         except Exception:     # noqa
             return
@@ -739,6 +959,18 @@ def run_function_case(rec, sc, variant, dseed, layout, checks=True):
                           key="%s:determinism" % unit)
         elif a != b:
             rec.stats["tolerance_used"] += 1
+        # ... and the same as a copy of the function that has never been called (no state kept between calls:
+        # the calls of the other variants / scenarios precede this one in the process)
+        try:
+            with warnings.catch_warnings():
+                warnings.simplefilter("ignore")
+                res3 = fresh_function(fn)(*args, **kw)
+        except Exception:     # noqa
+            return
+        rec.stats["function_history_pairs"] = rec.stats.get("function_history_pairs", 0) + 1
+        if not close(a, snap(res3, 1)):
+            rec.violation("C09 fails: %s depends on earlier calls in the same process (differs from a never-called copy of the "
+                          "function on the same inputs)" % unit, case, key="%s:call history" % unit)
 
 
 def tie_explains(Cls, sc, variant, dseed, layout, fitkw, e1, e2):
@@ -770,9 +1002,20 @@ def tie_explains(Cls, sc, variant, dseed, layout, fitkw, e1, e2):
         return False
 
 
+_GLOBAL_RNG_STEP = [0]
+
+
+def perturb_global_rng(reset=False):
+    """numpy's GLOBAL generator is put into a different state before every fit / call that is compared with
+    another one: with an integer (or default) random_state no result may depend on it"""
+    _GLOBAL_RNG_STEP[0] = 0 if reset else _GLOBAL_RNG_STEP[0] + 1
+    np.random.seed(977 + 31 * _GLOBAL_RNG_STEP[0])
+
+
 def fit_fresh(Cls, sc, variant, dseed, layout, fitkw):
     ctor = realise(sc["make"](variant, dseed)["ctor"], layout)
     est = Cls(**ctor)
+    perturb_global_rng()
     with warnings.catch_warnings():
         warnings.simplefilter("ignore")
         invoke(est, "fit", realise(fitkw, layout))
@@ -785,6 +1028,7 @@ def run_histories(rec, sc, variant, dseed, layout="C"):
     unit = sc["unit"]
     spec = sc["make"](variant, dseed)
     ignore = set(spec.get("ignore", ()))
+    perturb_global_rng(reset=True)
     # determinism
     if not spec.get("nondeterministic"):
         case = dict(kind="determinism", scenario=unit, variant=variant, dseed=dseed, layout=layout, n_extra=N_EXTRA)
@@ -859,6 +1103,7 @@ def run_histories(rec, sc, variant, dseed, layout="C"):
             with warnings.catch_warnings():
                 warnings.simplefilter("ignore")
                 for kw_mid in firsts[1:]:          # further earlier fits, each followed by a use of the object
+                    perturb_global_rng()
                     invoke(est, "fit", realise(kw_mid, layout))
                     for m, kw in method_steps[:2]:
                         try:
@@ -873,6 +1118,7 @@ def run_histories(rec, sc, variant, dseed, layout="C"):
         try:
             with warnings.catch_warnings():
                 warnings.simplefilter("ignore")
+                perturb_global_rng()
                 invoke(est, "fit", realise(second, layout))
         except Exception as e:     # noqa
             rec.violation("C09 fails: %s refitted (%s) raises %s: %s although a fresh estimator fits the same data" % (
@@ -933,6 +1179,8 @@ def run_dynamic(ctx):
                         for layout in LAYOUTS:
                             run_class_case(rec, sc, variant, dseed, layout, checks=(layout == "C"))
                         run_histories(rec, sc, variant, dseed, "C")
+                        run_fit_transform_combos(rec, sc, variant, dseed)
+                        run_alias_case(rec, sc, variant, dseed)
                         if not quick:
                             run_histories(rec, sc, variant, dseed, "F")
             for sc in fn_scenarios():
@@ -976,7 +1224,14 @@ def _replay_case(case):
     if k == "class":
         run_class_case(rec, scs[case["scenario"]], case["variant"], case["dseed"], case["layout"])
     elif k == "function":
-        run_function_case(rec, fns[case["scenario"]], case["variant"], case["dseed"], case["layout"])
+        # the memory-of-earlier-calls check needs the earlier calls: replay the variants up to this one
+        for v in range(case["variant"] + 1):
+            run_function_case(rec, fns[case["scenario"]], v, case["dseed"], case["layout"])
+        rec.violations = [x for x in rec.violations if x["case"]["variant"] == case["variant"]]
+    elif k == "fit_transform":
+        run_fit_transform_combos(rec, scs[case["scenario"]], case["variant"], case["dseed"], only=case.get("combo"))
+    elif k == "alias":
+        run_alias_case(rec, scs[case["scenario"]], case["variant"], case["dseed"])
     else:
         sc = scs[case["scenario"]]
         spec_hist = case.get("history")
